@@ -56,7 +56,7 @@ NO_V1 = ("bulkget", "bulkwalk@1", "bulkwalk@2", "bulktable@1", "bulktable@2")
 WALKS = ("walk", "multiwalk", "bulkwalk", "table", "bulktable")
 
 VERSIONS = {
-    "quick": ["v2c", "v1", "v3:authNoPriv:md5"],
+    "quick": ["v2c", "v1", "v3:authNoPriv:md5", "v3:authPriv:sha1"],
     "thorough": ["v2c", "v1", "v3:noAuthNoPriv:md5", "v3:authNoPriv:md5", "v3:authNoPriv:sha1", "v3:authPriv:md5", "v3:authPriv:sha1"],
 }
 
